@@ -441,7 +441,8 @@ def tasks(tier, seed):
             idx = list(range(n_first))
             for ch in core.spread(idx, 24 if tier == 'quick' else 32):
                 ts.append({'t': 'sched', 'pair': pair, 'first': first, 'indexes': ch, 'bound': 1})
-            if tier == 'thorough':
+            if tier == 'thorough' and not core.AXIS:
+                # (main pass only: the environment axes repeat the one-preemption schedules)
                 # two preemptions are quadratic in the number of points: every placement for the small pair,
                 # a regular 7 x 5 grid of (first, second) points for the file pairs
                 full = pair == 'dumps_loads'
